@@ -16,7 +16,7 @@ import (
 
 type c03Route struct{ host, path string }
 
-var c03Hosts = []string{"", "foo.com", "a.foo.com", "*.foo.com", "*.a.foo.com", "*.com", "foo.com:8080"}
+var c03Hosts = []string{"", "foo.com", "a.foo.com", "*.foo.com", "*.a.foo.com", "*.com", "foo.com:8080", "foo.com:80", "foo.com:443"}
 var c03Paths = []string{"/", "/a", "/a/b", "/A", "/ä"}
 var c03GlobPaths = []string{"/a/*", "/a*"}
 
@@ -80,7 +80,12 @@ func c03Expect(routes []c03Route, matcher string, globDisabled bool, reqHost str
 	type cand struct{ i, class, suffix int }
 	var cands []cand
 	for i, r := range routes {
-		cl, sf := c03HostMatch(r.host, h, globDisabled)
+		// a pattern that names the default port of the request's scheme is the same host; the other scheme's
+		// default port is a port like any other. Written with its port the pattern is the more specific one.
+		cl, sf := c03HostMatch(c03NormReqHost(r.host, tls), h, globDisabled)
+		if cl == 3 {
+			sf = len(r.host)
+		}
 		if cl == 0 || !c03PathMatch(matcher, r.path, path) {
 			continue
 		}
@@ -114,7 +119,7 @@ func c03Expect(routes []c03Route, matcher string, globDisabled bool, reqHost str
 
 func TestVerifC03Select(t *testing.T) {
 	L := ev.Begin("C03", "c03-select", "exploration",
-		"all tables of <=K routes over host patterns x paths; all requests host x tls x path; matcher in prefix,iprefix,glob; glob matching on/off; reference = candidate set + precedence from the statement. non-trivial = request with >=2 candidate routes")
+		"all tables of <=K routes over host patterns x paths (every second table is reached through a detour: all other pool routes are added for a temporary service and deleted again); all requests host x tls x path; matcher in prefix,iprefix,glob; glob matching on/off; reference = candidate set + precedence from the statement. non-trivial = request with >=2 candidate routes")
 	K := 3
 	if ev.Thorough() {
 		K = 4
@@ -148,9 +153,25 @@ func TestVerifC03Select(t *testing.T) {
 			}
 			fmt.Fprintf(&sb, "route add s%d %s%s http://10.0.0.%d:80/\n", j, pool[idx].host, pool[idx].path, j+1)
 		}
-		tbl, err := vfTable(sb.String())
+		text := sb.String()
+		if si%2 == 1 {
+			// the same table reached from elsewhere: every other route of the pool is first given to a
+			// temporary service which is then deleted again - the result must behave like the table built directly
+			var pre strings.Builder
+			in := map[int]bool{}
+			for _, idx := range sub {
+				in[idx] = true
+			}
+			for idx, r := range pool {
+				if !in[idx] && (idx < nLit || hasGlobPath) {
+					fmt.Fprintf(&pre, "route add tmp %s%s http://10.9.9.9:9/\n", r.host, r.path)
+				}
+			}
+			text = pre.String() + text + "route del tmp\n"
+		}
+		tbl, err := vfTable(text)
 		if err != nil {
-			L.Violation("table-rejected", map[string]interface{}{"table": sb.String(), "err": err.Error()})
+			L.Violation("table-rejected", map[string]interface{}{"table": text, "err": err.Error()})
 			return
 		}
 		gc := NewGlobCache(100)
@@ -169,7 +190,7 @@ func TestVerifC03Select(t *testing.T) {
 							msg, _, pan := ev.Guard(func() {
 								got = tbl.Lookup(vfReq(rh, rp, tls), "", rrPicker, Matcher[m], gc, gd)
 							})
-							c := map[string]interface{}{"table": strings.Split(strings.TrimSpace(sb.String()), "\n"), "matcher": m, "globDisabled": gd, "host": rh, "tls": tls, "path": rp}
+							c := map[string]interface{}{"table": strings.Split(strings.TrimSpace(sb.String()), "\n"), "built_via_temporary_routes_and_route_del": si%2 == 1, "matcher": m, "globDisabled": gd, "host": rh, "tls": tls, "path": rp}
 							if pan {
 								c["panic"] = msg
 								L.Violation("lookup-panic", c)
